@@ -500,7 +500,7 @@ class Fxp():
                 if _shift > 0 and _old_val.dtype != object and int(np.max(np.abs(_old_val))).bit_length() + _shift >= 63:
                     # the shifted raw values do not fit in 64 bits: use python integers
                     _old_val = _old_val.astype(object)
-                self.set_val(_old_val * 2**_shift, raw=True)
+                self.set_val(utils.scale_raw(_old_val, _shift) if _shift < 0 else _old_val * 2**_shift, raw=True)
         else:
             self.set_val(_old_val, raw=True)
 
